@@ -376,7 +376,15 @@ static Cfg parse(const vh::Case &cs, bool isvoid) {
     return g;
 }
 
+// Only the hook points this model treats as steps yield to the controller and are logged: promise / future / awaiter
+// (claim, dtor, resolve, walk, ready, sub, sub_retry).  Every other point on the way (storages, queues, whatever other
+// components add later) is ignored: no yield, no trace line.
+static void filtered_point(const char *id) {
+    int c = ctl::point_code(id);
+    if (c >= 1 && c <= 7) ctl::Controller::hook_point(id);
+}
 static void warmup() {
+    cocls::verif::get_hooks().point = &filtered_point;
     bool saved = vh::t_count;
     vh::t_count = false;
     coro_queue::install_queue_and_call([] {});   // libstdc++ deque of the thread-local ready queue allocates on first touch
@@ -570,7 +578,7 @@ static bool run_case(const vh::Case &cs, bool seq, bool coro) {
             std::vector<std::function<void()>> fns;
             fns.push_back(t0);
             if (g.mode == 2) fns.push_back(t1);
-            else if (repark) fns.push_back([] {});   // keeps the late resolver at thread id 2
+            else if (repark) fns.push_back([] { cocls::verif::get_hooks().point = &filtered_point; });   // keeps the late resolver at thread id 2
             if (g.k2 >= 0) fns.push_back(t2);
             if (repark) fns.push_back(t2late);
             ctl::Controller c;
